@@ -412,6 +412,11 @@ impl PartialServerInfo {
         self.info.token
     }
     pub fn get_info(&mut self) -> Option<&ServerInfo> {
+        if self.info.info_version == ServerInfoVersion::V6Ex && self.received & 1 == 0 {
+            // The main packet, which announces the number of clients, is
+            // still missing.
+            return None;
+        }
         if self.info.clients.len().assert_i32() != self.info.num_clients {
             return None;
         }
